@@ -202,7 +202,9 @@ def bounded_part(pid, rep: Report, tier, seed, findings):
     for v in res.get("violations", []):
         hit = None
         for f in kf:
-            if f.get("match") and f["match"] in v.get("key", ""):
+            key = v.get("key", "")
+            if f.get("match_all") and all(m in key for m in f["match_all"]) and \
+                    (not f.get("match_any") or any(m in key for m in f["match_any"])):
                 hit = f
                 break
         if hit:
